@@ -788,7 +788,11 @@ def run_protocol_unary(e, op, mode, specs=None):
     except Exception as ex:  # noqa: BLE001
         return False, f"raised {ex!r} inside the assumed precondition", degenerate, info
     got = (cc.cols(), cc.rows(), cc.get_cursor(), (cc.get_pop_up() or (None, None))[:2])
-    want = (ec, er, shift(cur, dx, dy), (shift(pop[:2], dx, dy) if pop else (None, None)))
+    wcur = shift(cur, dx, dy)
+    trims = k in ("trim", "trim_end") or (k in ("plr", "ptb") and (op[1] < 0 or op[2] < 0))
+    if trims and wcur is not None and not (0 <= wcur[0] < ec and 0 <= wcur[1] < er):
+        wcur = None  # the cursor's cell was trimmed away: the cursor goes with it (see spec/grid.py clip_cursor)
+    want = (ec, er, wcur, (shift(pop[:2], dx, dy) if pop else (None, None)))
     info.update(got=repr(got), want=repr(want), got_size=[got[0], got[1]])
     if got != want:
         names = ["cols", "rows", "cursor", "pop-up"]
@@ -826,7 +830,8 @@ def run_protocol_nary(expr, mode, specs=None):
             offs.append((x, 0))
             x += it[1]
         size = (x, max(r for _c, r in sizes))
-        cand = [shift(cu, *o) for cu, o in zip(curs, offs) if cu is not None]
+        # an operand wider than its slot is trimmed on the right: a cursor in the trimmed part goes with its cell
+        cand = [shift(cu, *o) for cu, o, it in zip(curs, offs, expr[1]) if cu is not None and cu[0] < it[1]]
     else:
         size = sizes[1]
         cand = [shift(curs[0], expr[3], expr[4])] if curs[0] is not None else ([curs[1]] if curs[1] is not None else [])
@@ -995,7 +1000,7 @@ INFORMATIONAL = {
 def run(tier="quick", seed=0):
     t0 = time.time()
     quick = tier == "quick"
-    procs = 8 if quick else 16
+    procs = 16  # quick used 8: with 16 the quick tier keeps its margin under the 45 s budget when the machine is busy
     base_rng = rng(seed)
     with enc_mode("utf8"):
         _check_alphabet()
@@ -1088,7 +1093,7 @@ def run(tier="quick", seed=0):
     pchk = Check(
         f"{ID}/canvas-protocol",
         "size/cursor effects assumed by contracts/proto_widget.py, for results with >= 1 row and >= 1 column: CompositeCanvas(c) keeps cols/rows/cursor/pop-up; trim(top,count): rows = rows-top or min(count, rows-top), "
-        "cursor y-top; trim_end(n): rows-n, cursor kept; pad_trim_left_right(l,r): cols+l+r, cursor x+l; pad_trim_top_bottom(t,b): rows+t+b, cursor y+t; fill_attr_apply: nothing; the other dimension is unchanged and the pop-up "
+        "cursor y-top; trim_end(n): rows-n, cursor kept; pad_trim_left_right(l,r): cols+l+r, cursor x+l; pad_trim_top_bottom(t,b): rows+t+b, cursor y+t (a cursor whose cell is trimmed away is dropped); fill_attr_apply: nothing; the other dimension is unchanged and the pop-up "
         "moves like the cursor; CanvasOverlay: bottom's size, top's cursor+(left,top) else bottom's; CanvasCombine: (cols, sum of rows), a child's cursor+(0, rows above); CanvasJoin: (sum of requested cols, max rows), a child's cursor+(cols to the left, 0)",
         True,
         "operands: every leaf and every 2nd depth-1 tree (quick: every 5th); unary parameters: everything inside the contracts' preconditions with pads <= 2 and count <= rows+1; n-ary: the depth <= 2 combine/join/overlay trees of the enumerated scope (quick: every 2nd)",
